@@ -126,7 +126,8 @@ pub fn observe_light<T: Label>(w: &Window<T>, m: &VecDeque<u32>, st: &mut Stats)
 		if (i as usize) < n {
 			let got = w[pi].id();
 			ensure!(Some(got) == exp, "C01:index", "w[{}] = {} expected {:?} (cap {})", i, got, exp, n);
-		} else if !cfg!(feature = "unsafe_performance") || true {
+		} else if !cfg!(feature = "unsafe_performance") {
+			// (calls on which the default build panics are outside the claim of the unsafe build: not probed there)
 			let r = engine::catch(|| w[pi].id());
 			ensure!(r.is_err(), "C01:index-oob", "w[{}] returned {:?} for capacity {}", i, r.ok(), n);
 		}
@@ -452,6 +453,96 @@ pub fn run_history<T: Label>(c: &HCase, st: &mut Stats) -> CaseResult {
 	Ok(())
 }
 
+/// The observations of a history as a hash (no model): used to compare builds (C19/C20)
+pub fn trace_history<T: Label>(c: &HCase) -> (u64, u64) {
+	let mut h = (0x51u64, 0x73u64);
+	let mut add = |v: u64| {
+		h.0 = engine::mix(h.0, v);
+		h.1 = engine::mix(h.1 ^ 0xabcdef, v.rotate_left(17));
+	};
+	let mut label = 1u32;
+	let n = c.cap as usize;
+	let mut w: Window<T> = if n == 0 { Window::empty() } else { Window::new(c.cap as PeriodType, T::mk(label)) };
+	label += 1;
+	let mut kept: Vec<Window<T>> = Vec::new();
+	let observe = |w: &Window<T>, add: &mut dyn FnMut(u64)| {
+		add(w.len() as u64);
+		add(w.is_empty() as u64);
+		if !w.is_empty() {
+			add(w.newest().id() as u64);
+			add(w.oldest().id() as u64);
+		}
+		for i in 0..=(w.len() as u64 + 1) {
+			add(w.get(i as PeriodType).map_or(u64::MAX, |x| x.id() as u64));
+		}
+		for x in w.iter() {
+			add(x.id() as u64);
+		}
+		for x in w.iter_rev() {
+			add(x.id() as u64 ^ 0x8000);
+		}
+		for x in w.as_slice() {
+			add(x.id() as u64 ^ 0x4000);
+		}
+	};
+	for op in &c.ops {
+		match op {
+			Op::Push => {
+				if n > 0 {
+					add(w.push(T::mk(label)).id() as u64);
+					label += 1;
+				}
+			}
+			Op::Observe => observe(&w, &mut add),
+			Op::Splits(k) => {
+				let k = (*k as usize * (n + 2)) >> 16;
+				let mut it = w.iter();
+				for _ in 0..k {
+					add(it.next().map_or(u64::MAX, |x| x.id() as u64));
+				}
+				add(it.size_hint().0 as u64);
+				add(it.len() as u64);
+				add(it.last().map_or(u64::MAX, |x| x.id() as u64));
+				let mut it = w.iter_rev();
+				for _ in 0..k {
+					add(it.next().map_or(u64::MAX, |x| x.id() as u64));
+				}
+				add(it.len() as u64);
+				add(it.count() as u64);
+			}
+			Op::CloneSwap => {
+				let c2 = w.clone();
+				kept.push(std::mem::replace(&mut w, c2));
+			}
+			Op::Rebuild => {
+				if n > 0 {
+					if let Ok(idx) = exported_index(&w) {
+						let buf: Box<[T]> = w.as_slice().to_vec().into_boxed_slice();
+						w = Window::from_parts(buf, idx as PeriodType);
+					}
+				}
+			}
+			Op::Serde => {
+				if let Ok(text) = serde_json::to_string(&w) {
+					add(engine::fnv(text.as_bytes()));
+					if let Ok(r) = serde_json::from_str::<Window<T>>(&text) {
+						w = r;
+					}
+				}
+			}
+		}
+	}
+	observe(&w, &mut add);
+	for k in &kept {
+		observe(k, &mut add);
+	}
+	h
+}
+
+pub fn history_strategy_pub() -> impl Strategy<Value = HCase> {
+	history_strategy()
+}
+
 fn history_strategy() -> impl Strategy<Value = HCase> {
 	let max = (PeriodType::MAX as u64 - 1).min(254) as u32;
 	let cap = prop_oneof![3 => 0u32..=8, 2 => 9u32..=40, 1 => 41u32..=max, 1 => Just(max)];
@@ -483,6 +574,7 @@ pub fn def(tier: Tier) -> PropertyDef {
 			run_history::<u32>(c, st)
 		}
 	}));
+	checks.extend(crate::fuzz_entry::corpus_checks("C01"));
 	PropertyDef {
 		id: "C01",
 		level: "exploration",
